@@ -29,14 +29,33 @@ ENTRY = dict(
         "value decoded from position p is held under table[p].name with index p": "theorem for all four block kinds (`read_slot_*`; schedule: entries naming distinct known schedules)",
         "payload bytes -> request addressing, end to end": "theorem (`payload_to_request_*`) for payloads produced by C05's encoders",
         "position without description never creates/overwrites/re-indexes": "theorem (`unknown_inert_ecomax(_all)`, `_mixer`, `_thermostat`, `_schedule`)",
-        "existing thermostat parameters are never re-addressed by later responses": "theorem (`addressing_stable_thermostat`)",
-        "thermostat offset = t x parameters per thermostat": "partial: theorem without holes; F3 witness with a hole",
+        "existing parameters (any device) are never re-addressed by later responses / kept objects": "theorem (`addressing_stable_ecomax`, `_mixer`, `_thermostat`) + correspondence (kept-object histories, all capture and write routes)",
+        "thermostat offset = t x parameters per thermostat": "partial: theorem without holes; F3 witness with a hole; F8 (candidate): parameter created by a partial response",
         "responses before the UID response (product type unknown)": "theorem (`waiting_kinds_inert_before_uid`, `delayed_application_uses_real_product`, `_mixer`) + correspondence (arrival-order histories, predicate S4)",
         "model = implementation": "correspondence",
     },
     assumptions=COMMON_ASSUME + [
         "one product type per device history (the UID response may arrive at any point, also after parameter responses; it does not change type later)",
         "'number of parameters per thermostat' = slots per thermostat in the decoded block, (start+count)//T - start",
+    ],
+    notes=[
+        "PUBLIC ROUTES (round-4 audit).  How a parameter object reaches a client, all driven by harness/c07.py (capture routes of the "
+        "'kept' histories): device.data[name]; device.get_nowait(name); attribute access device.<name>; await device.get(name); "
+        "subscribe(name, cb) callback argument; subscribe(name, on_change(cb)) callback argument; the same on sub-devices reached through "
+        "ecomax.data['mixers'][m] / ['thermostats'][t]. NOT driven: await device.wait_for(name) alone (it returns nothing), subscribe_once "
+        "(same dispatch path as subscribe), the other filters (throttle/debounce/delta/aggregate/custom: C20's subject).",
+        "How a parameter is written, all driven (write routes, chosen per set): Parameter.set; Parameter.set_nowait; Device.set(name, v) on the "
+        "owning device (controller, Mixer, Thermostat); Device.set_nowait; Switch.turn_on/turn_off; Switch.turn_on_nowait/turn_off_nowait; "
+        "EcoMAX.turn_on/turn_off and their _nowait forms (ecomax_control); schedule switch/parameter set -> SetScheduleRequest; "
+        "thermostat_profile -> SetThermostatParameterRequest slot 0. NOT driven here: Schedule.commit() (C18).",
+        "Kept objects: the client keeps objects obtained by any capture route, the controller then reports the same blocks with another "
+        "start / count / hole pattern / number of mixers / number of thermostats (the kept name at another place in the payload, or not "
+        "reported), the profile slot becomes undefined and defined again, the state changes; then every kept object is written through "
+        "every applicable route. Expected slot = the slot the parameter was created for (theorems addressing_stable_ecomax/_mixer/"
+        "_thermostat: update() never re-addresses). A kept object that is no longer the one in device.data (only the thermostat profile "
+        "after an undefined slot) is judged by the statement's predicate alone.",
+        "Outside the model: a UID response that changes the product type of a device (see report: names shared by both tables keep the "
+        "index of the first product).",
     ],
     timeout={"quick": 600, "thorough": 1800},
 )
